@@ -26,6 +26,8 @@ took into frame processing (calls of _payload_received, counted by a harness-sid
 """
 import json
 import logging
+import resource
+import signal
 import time
 import traceback
 import zlib
@@ -41,6 +43,33 @@ from aioquic import tls  # noqa: E402
 from aioquic.h3.connection import H3Connection  # noqa: E402
 from aioquic.quic import events as qev  # noqa: E402
 from aioquic.quic.connection import QuicConnectionState  # noqa: E402
+
+class RunTimeout(Exception):
+    """one execution exceeded its wall-clock allowance (normal executions take ~10 ms):
+    a loop that does not terminate in this setting"""
+
+
+RUN_SECONDS = 20.0
+
+
+class deadline:
+    """with deadline(): ... raises RunTimeout inside the block after RUN_SECONDS"""
+
+    def __init__(self, seconds=None):
+        self.seconds = seconds or RUN_SECONDS
+
+    def _fire(self, signum, frame):
+        raise RunTimeout("execution still running after %.0f s" % self.seconds)
+
+    def __enter__(self):
+        self.old = signal.signal(signal.SIGALRM, self._fire)
+        signal.setitimer(signal.ITIMER_REAL, self.seconds)
+
+    def __exit__(self, *a):
+        signal.setitimer(signal.ITIMER_REAL, 0)
+        signal.signal(signal.SIGALRM, self.old)
+        return False
+
 
 # (qlog, secrets); the first one is the reference "logging disabled"
 SETTINGS = [(False, False), (False, True), (True, False), (True, True)]
@@ -430,7 +459,11 @@ def run_setting_a(scenario, prefix, setting, trace=False):
     w = netsim.NetSim(cfg, script, ch, monitors=[rec], trace=trace, **kwargs)
     out = {"exc": None, "diverged": None, "viol": []}
     try:
-        out["outcome"] = w.run(until)
+        with deadline():
+            out["outcome"] = w.run(until)
+    except RunTimeout as e:
+        out["outcome"] = "timeout"
+        out["exc"] = ("RunTimeout", None, "nontermination", str(e))
     except core.HarnessError as e:
         if "prefix replay diverged" not in str(e):
             raise
@@ -473,6 +506,12 @@ def compare_a(ref, other, setting):
                       "entry": other["exc"][1], "setting": _skind(setting)},
                      "%s raised from %s (API %s) only with %s: %s"
                      % (other["exc"][0], other["exc"][2], other["exc"][1], sname(setting), other["exc"][3])))
+        return viol
+    if ref["exc"] is not None and ref["exc"][0] == "RunTimeout" and (
+            other["exc"] is None or other["exc"][0] != "RunTimeout"):
+        viol.append(({"monitor": "terminates_only_with_logging", "setting": _skind(setting)},
+                     "the run without logging does not terminate (%s) but terminates with %s (outcome %s)"
+                     % (ref["exc"][3], sname(setting), other["outcome"])))
         return viol
     if ref["obs"] == other["obs"]:
         return viol
@@ -598,6 +637,14 @@ class Lane:
     def apply(self, desc, fm):
         bot = self.bot
         self.mark = len(self.rec.steps)
+        try:
+            with deadline():
+                return self._apply(desc, fm)
+        except RunTimeout as e:
+            return ("EXC", "RunTimeout", None, "nontermination", str(e))
+
+    def _apply(self, desc, fm):
+        bot = self.bot
         try:
             if desc[0] == "raw":
                 if self.raw is None:
@@ -797,11 +844,17 @@ def task_c(item):
             for logger in (False, True):
                 w = c16.build_world(("h3", role, logger, prefix), [])
                 cap = h3_capture(w)
-                n = w.deliver(msg, chunking)
+                try:
+                    with deadline():
+                        n = w.deliver(msg, chunking)
+                        if n is not None:
+                            o = h3_observe(w, cap)
+                except RunTimeout:
+                    n, o = 0, (("RunTimeout", "nontermination"),)
                 if n is None:
                     obs.append(None)
                     continue
-                obs.append(h3_observe(w, cap))
+                obs.append(o)
                 if logger:
                     v = []
                     res["qlogs"] += h3_qlog_ok(w, v, "(message %s)" % msg["label"])
@@ -906,6 +959,8 @@ def run_api_case(case, logger):
             exc[0] = (type(e).__name__, classify(e)[1], name)
             log.append((name, "EXC", type(e).__name__))
 
+    signal.signal(signal.SIGALRM, deadline()._fire)
+    signal.setitimer(signal.ITIMER_REAL, RUN_SECONDS)
     step("shuttle0", shuttle)
     sid = client.get_next_available_stream_id()
     if actor == "c" and kind == "headers":
@@ -934,6 +989,7 @@ def run_api_case(case, logger):
             step("send_headers", lambda: hs.send_headers(sid, list(c16.RESP)))
             step("send_data", lambda: hs.send_data(sid, arg, end_stream=True))
         step("shuttle2", shuttle)
+    signal.setitimer(signal.ITIMER_REAL, 0)
     viol = []
     nq = 0
     if logger:
@@ -997,6 +1053,9 @@ def chunk(lst, n):
 
 def run(ctx):
     tier, seed = ctx.tier, ctx.seed
+    # a setting in which the code loops forever also allocates forever: cap the address space
+    soft, hard = resource.getrlimit(resource.RLIMIT_AS)
+    resource.setrlimit(resource.RLIMIT_AS, (12 << 30, hard))
     quick = tier == "quick"
     only = ctx.only_parts
     t_all = time.time()
